@@ -127,13 +127,15 @@ func (e *Exec) flushAsserts() {
 	t := e.tb
 	// batch: OR_i (pc[:k_i] ∧ ¬c_i); pcs are nested prefixes
 	if len(pend) > 1 {
+		// shared prefix conjunctions P_k = pc[0] ∧ ... ∧ pc[k-1] (one DAG)
+		prefix := make([]*Node, len(e.pc)+1)
+		prefix[0] = t.True()
+		for i, a := range e.pc {
+			prefix[i+1] = t.BAnd(prefix[i], a)
+		}
 		disj := t.False()
 		for _, p := range pend {
-			conj := t.BNot(p.c)
-			for _, a := range e.pc[:p.pcLen] {
-				conj = t.BAnd(conj, a)
-			}
-			disj = t.BOr(disj, conj)
+			disj = t.BOr(disj, t.BAnd(prefix[p.pcLen], t.BNot(p.c)))
 		}
 		e.nQueries++
 		v, _, _ := e.solver.Check(t.Query([]*Node{disj}), e.cfg.AssertTimeoutMs, nil)
@@ -363,6 +365,49 @@ func registerIntercepts(g *Engine) {
 		return e.strEq(StringVal{b: e.bytesOfSlice(x)}, StringVal{b: e.bytesOfSlice(y)})
 	}
 	ic["verif:verifTier"] = func(e *Exec, fn *ssa.Function, a []Value) Value { return e.tb.Const(64, uint64(e.eng.tier)) }
+	// verifDecimal(maxDigits, max): a symbolic number given by its decimal
+	// digits (digit count case-split); %d prints exactly these digits, so
+	// formatting needs no division and parsing back is Horner arithmetic.
+	ic["verif:verifDecimal"] = func(e *Exec, fn *ssa.Function, a []Value) Value {
+		t := e.tb
+		minDigits := e.concreteInt(a[0])
+		maxDigits := e.concreteInt(a[1])
+		maxVal := e.scalar(a[2])
+		n := minDigits + e.nondetChoice(maxDigits-minDigits+1)
+		digs := make([]*Node, n)
+		val := t.Const(64, 0)
+		for i := 0; i < n; i++ {
+			d := e.nondetScalar("u8", 8)
+			c := t.Cmp(OUle, d, t.Const(8, 9))
+			if i == 0 && n > 1 {
+				c = t.BAnd(c, t.Cmp(OUle, t.Const(8, 1), d))
+			}
+			if c.IsFalse() {
+				panic(pathEnd{EndInfeasible, "verifDecimal digit"})
+			}
+			e.assume(c)
+			digs[i] = t.Bin(OAdd, d, t.Const(8, '0'))
+			// the same operation sequence a Horner digit parser performs on the
+			// rendered character (val*10 + int(rune-'0')), so that the parsed
+			// value is the identical term and no adder-reassociation proof is needed
+			dv := t.SExt(t.Bin(OSub, t.ZExt(digs[i], 32), t.Const(32, '0')), 64)
+			val = t.Bin(OAdd, t.Bin(OMul, val, t.Const(64, 10)), dv)
+		}
+		c := t.Cmp(OUle, val, maxVal)
+		if c.IsFalse() {
+			panic(pathEnd{EndInfeasible, "verifDecimal range"})
+		}
+		e.assume(c)
+		if e.decimals == nil {
+			e.decimals = map[*Node][]*Node{}
+		}
+		if !val.IsConst() {
+			e.decimals[val] = digs
+			e.decimals[t.Extract(val, 31, 0)] = digs
+			e.decimals[t.Extract(val, 15, 0)] = digs
+		}
+		return val
+	}
 	ic["verif:verifSettle"] = func(e *Exec, fn *ssa.Function, a []Value) Value { return nil }
 	ic["verif:verifRunGoroutines"] = func(e *Exec, fn *ssa.Function, a []Value) Value {
 		for len(e.goQueue) > 0 {
@@ -971,6 +1016,9 @@ func (e *Exec) miniFormat(format StringVal, args SliceVal) Value {
 // digit is (x / 10^k) % 10 as a term.
 func (e *Exec) symDecimal(x *Node, typ types.Type) ([]*Node, bool) {
 	t := e.tb
+	if d, ok := e.decimals[x]; ok {
+		return d, true
+	}
 	if _, signed, ok := intWidth(typ); ok && signed {
 		if !e.branch(t.Cmp(OSle, t.Const(x.w, 0), x)) {
 			return nil, false // negative: not needed by the targeted code
